@@ -1339,6 +1339,168 @@ def page_list_natural():
     raise LookupError(f"get_page_tree no longer follows the modelled rule: walked {bad[2]}, the rule says {bad[3]}")
 
 
+# --------------------------------------------------------------------------
+# round 6: edge colours of a hop, source files reachable under two paths, sort_components
+# --------------------------------------------------------------------------
+
+def observe_hop_colours(items, coloured=True, as_set=False):
+    """The real `FortranGraph.add_nodes` on one hop: `items` are real node objects (or names, made into string
+    nodes) in the order the collection hands them out.  Returns [(identifier, colour)] in the order
+    `add_node` is called.  No graph is built: `add_node` records, `add_to_graph` ends the hop."""
+    common.import_ford()
+    import ford.graphs as G
+
+    gd = G.GraphData("../", coloured, False)
+    nodes = [G.BaseNode(x, gd) if isinstance(x, str) else x for x in items]
+    calls = []
+
+    class Hop(G.FortranGraph):
+        def __init__(self):                      # (no root, no dot object: only add_nodes is exercised)
+            self.data = gd
+
+        def add_node(self, hop_nodes, hop_edges, node, colour):
+            calls.append((node.ident, colour))
+
+        def add_to_graph(self, nodes, edges, nesting):
+            return False
+
+    Hop().add_nodes(set(nodes) if as_set else nodes)
+    return calls
+
+
+def palette(n):
+    """colour number i of n, as `rainbowcolour` spells it (index -> text; used to read the number back)"""
+    import colorsys
+
+    out = []
+    for i in range(n):
+        r, g, b = colorsys.hsv_to_rgb(float(i) / n, 1.0, 1.0)
+        out.append(f"#{int(255 * r):02X}{int(255 * g):02X}{int(255 * b):02X}")
+    return out
+
+
+def edge_colour_by_sorted_index():
+    """Probe of `FortranGraph.add_nodes` with `coloured_edges` on: four nodes handed over in all 24 orders.
+    True: the k-th node *in sorted order* gets colour k of 4 whatever the order of the collection; False: the
+    colour number of a node is its position in the collection as iterated; anything else raises."""
+    import itertools
+
+    names = ["delta", "alpha", "Charlie", "bravo"]
+    pal = palette(len(names))
+    by_sorted, by_position = True, True
+    for perm in itertools.permutations(names):
+        got = observe_hop_colours(list(perm))
+        if [g[0] for g in got] != sorted(names):
+            raise LookupError(f"add_nodes handled the nodes in the order {[g[0] for g in got]}")
+        if any(c not in pal for _, c in got):
+            raise LookupError(f"add_nodes: colours {got} are not rainbowcolour(i, {len(names)})")
+        if [c for _, c in got] != pal:
+            by_sorted = False
+        if any(c != pal[perm.index(i)] for i, c in got):
+            by_position = False
+    black = observe_hop_colours(names, coloured=False)
+    if {c for _, c in black} != {"#000000"}:
+        raise LookupError(f"add_nodes without coloured_edges: {black}")
+    if by_sorted == by_position:
+        raise LookupError("add_nodes: the colour of a node is neither its sorted position nor its position in the collection")
+    return by_sorted
+
+
+def observe_find_all_files(root: Path, order: str, extensions=("f90",)):
+    """the real `find_all_files` on the directory `root/src` with every directory enumerated in ascending /
+    descending name order (os.scandir and os.listdir arranged); paths relative to `root`"""
+    common.import_ford()
+    import os
+    from types import SimpleNamespace
+
+    import ford.fortran_project as FP
+
+    class Scan:
+        def __init__(self, entries):
+            self._it = iter(entries)
+
+        def __iter__(self):
+            return self
+
+        def __next__(self):
+            return next(self._it)
+
+        def __enter__(self):
+            return self
+
+        def __exit__(self, *a):
+            return False
+
+        def close(self):
+            pass
+
+    real_scandir, real_listdir = os.scandir, os.listdir
+    rev = order == "descending"
+
+    def scandir(path="."):
+        with real_scandir(path) as it:
+            return Scan(sorted(it, key=lambda e: e.name, reverse=rev))
+
+    def listdir(path="."):
+        return sorted(real_listdir(path), reverse=rev)
+
+    settings = SimpleNamespace(extensions=list(extensions), fixed_extensions=[], extra_filetypes={},
+                               src_dir=[Path(root) / "src"], exclude_dir=[], exclude=[])
+    os.scandir, os.listdir = scandir, listdir
+    try:
+        found = FP.find_all_files(settings)
+    finally:
+        os.scandir, os.listdir = real_scandir, real_listdir
+    return sorted(os.path.relpath(str(p), root) for p in found)
+
+
+def source_aliases_first_come():
+    """Probe of `find_all_files` on a scratch source directory in which one file is reachable under two paths
+    (a symbolic link next to it and one in another directory), enumerated ascending and descending.
+    False: every matching path is a source file, in both orders (the tree as it is); True: of the paths of one
+    file only the one enumerated first survives; anything else raises."""
+    import os
+
+    with common.scratch_dir("ford-verif-c12-alias-") as scratch:
+        root = Path(scratch)
+        (root / "src" / "legacy").mkdir(parents=True)
+        (root / "src" / "compat").mkdir()
+        (root / "src" / "legacy" / "axpy.f90").write_text("subroutine axpy()\nend subroutine axpy\n")
+        (root / "src" / "norms.f90").write_text("subroutine norms()\nend subroutine norms\n")
+        os.symlink("../legacy/axpy.f90", root / "src" / "compat" / "blas_axpy.f90")
+        os.symlink("axpy.f90", root / "src" / "legacy" / "zaxpy.f90")
+        asc = observe_find_all_files(root, "ascending")
+        desc = observe_find_all_files(root, "descending")
+    every = sorted(["src/compat/blas_axpy.f90", "src/legacy/axpy.f90", "src/legacy/zaxpy.f90", "src/norms.f90"])
+    if asc == every and desc == every:
+        return False
+    if "src/norms.f90" in asc and "src/norms.f90" in desc and len(asc) == 2 and len(desc) == 2 and asc != desc:
+        return True
+    raise LookupError(f"find_all_files on a directory with aliased source files: ascending {asc}, descending {desc}")
+
+
+def sort_components_tables():
+    """AST of `FortranBase.sort_components`: the keys of `SORT_KEY_FUNCTIONS` (the values `sort:` may take) and the
+    entity lists that are sorted, in order"""
+    fn = _method(ast.parse(_src("ford/sourceform.py")), "FortranBase", "sort_components")
+    modes, lists = None, None
+    for n in ast.walk(fn):
+        if isinstance(n, ast.Assign) and isinstance(n.value, ast.Dict) and any(
+                isinstance(t, ast.Name) and t.id == "SORT_KEY_FUNCTIONS" for t in n.targets):
+            modes = [k.value for k in n.value.keys if isinstance(k, ast.Constant) and isinstance(k.value, str)]
+            if len(modes) != len(n.value.keys):
+                raise LookupError("SORT_KEY_FUNCTIONS has keys that are not string literals")
+        if isinstance(n, ast.For) and isinstance(n.iter, (ast.List, ast.Tuple)) and any(
+                isinstance(c, ast.Call) and isinstance(c.func, ast.Attribute) and c.func.attr == "sort"
+                for b in n.body for c in ast.walk(b)):
+            lists = [e.value for e in n.iter.elts if isinstance(e, ast.Constant) and isinstance(e.value, str)]
+            if len(lists) != len(n.iter.elts):
+                raise LookupError("sort_components: the list of entity lists is not made of string literals")
+    if not modes or not lists:
+        raise LookupError("sort_components: SORT_KEY_FUNCTIONS or the loop over the entity lists not found")
+    return modes, lists
+
+
 def lean_chars(s: str) -> str:
     """char-list literal (fast for `decide`, unlike "..".toList)"""
     def ch(c):
@@ -1375,6 +1537,9 @@ def generate() -> dict:
     ssites = sort_sites()
     page_natural, page_src = page_list_natural()
     lt_of = {o[0]: o[1] for o in odefs}
+    colour_sorted = edge_colour_by_sorted_index()
+    alias_first = source_aliases_first_come()
+    sort_modes, sort_lists = sort_components_tables()
 
     def pairs(xs):
         return lean_list(f"({lean_str(a)}, {lean_str(b)})" for a, b in xs)
@@ -1445,6 +1610,16 @@ def generate() -> dict:
          + lean_list(f"({lean_chars(a)}, {lean_chars(b)}, {lean_chars(c_)}, {lean_chars(d)})" for a, b, c_, d in ssites),
          "", f"/-- get_page_tree (probed with the page directory listed in several orders): {page_src} -/",
          f"def pageListNatural : Bool := {'true' if page_natural else 'false'}",
+         "", "/-- FortranGraph.add_nodes (probed with four nodes handed over in all 24 orders): the edges leaving the k-th node "
+         "in sorted order get colour k (true), or the colour number is the node's position in the collection as iterated (false) -/",
+         f"def edgeColourBySortedIndex : Bool := {'true' if colour_sorted else 'false'}",
+         "", "/-- find_all_files (probed on a scratch directory with symbolic links to source files, enumerated ascending and "
+         "descending): of the paths that lead to one file only the first enumerated one is kept (true), or every path is a source file (false) -/",
+         f"def sourceAliasesFirstCome : Bool := {'true' if alias_first else 'false'}",
+         "", "/-- keys of SORT_KEY_FUNCTIONS in FortranBase.sort_components (the values of the `sort` option) -/",
+         "def sortModes : List Str := " + lean_list(lean_str(a) for a in sort_modes),
+         "", "/-- the entity lists FortranBase.sort_components sorts, in order -/",
+         "def sortedComponentLists : List Str := " + lean_list(lean_str(a) for a in sort_lists),
          "", "end Ford.Gen.C12", ""]
     text = "\n".join(L)
     common.write_if_changed(common.LEAN / "FordModel" / "Generated" / "C12.lean", text)
@@ -1456,7 +1631,9 @@ def generate() -> dict:
             "inheritedIterables": inh_src, "incDirsKept": inc_src,
             "extensionBySuffix": ext_by_suffix, "outputDirExcludedIn": out_excl,
             "orderDefs": odefs, "sortSites": ssites, "pageListNatural": page_natural, "pageListing": page_src,
-            "find_all_files_returns": find_all_files_returns_set()}
+            "find_all_files_returns": find_all_files_returns_set(),
+            "edgeColourBySortedIndex": colour_sorted, "sourceAliasesFirstCome": alias_first,
+            "sortModes": sort_modes, "sortedComponentLists": sort_lists}
 
 
 if __name__ == "__main__":
